@@ -11,7 +11,7 @@ import sys
 import time
 import warnings
 
-from .core import HarnessError, Stats, digest
+from .core import HarnessError, Stats, digest, run_isolated
 
 VERIF_DIR = os.path.dirname(os.path.dirname(os.path.abspath(__file__)))
 REPLAY_OUT = os.environ.get("VERIF_REPLAY_OUT") or os.path.join(VERIF_DIR, "replays", "out")
@@ -51,7 +51,12 @@ def _run_chunk(args):
         for idx in indices:
             try:
                 spec = _ENGINE.generate(prop, seed, idx, tier)
-                res = _ENGINE.execute(spec)
+                if getattr(_ENGINE, "isolate_runs", False):
+                    # the run executes in a child forked from this worker, which itself never runs
+                    # library code: no process-global state carries from one run to the next
+                    res = run_isolated(_ENGINE.execute, spec)
+                else:
+                    res = _ENGINE.execute(spec)
             except HarnessError as err:
                 agg["harness_errors"].append([idx, f"HarnessError: {err}"])
                 continue
